@@ -22,7 +22,7 @@ import (
 
 // Subcommand c07worker: the isolated worker of property C07.
 //
-//	verifharness c07worker <scratch-dir> <per-input-timeout-seconds>
+//	verifharness c07worker <scratch-dir> <per-input-timeout-seconds> [skip=chunked-extent]
 //
 // stdin, one JSON case per line:
 //
@@ -211,20 +211,71 @@ func c07ReadAttrs(res *c07Res, what string, get func() ([]*core.Attribute, error
 
 const c07MaxChunks = 64
 
+// c07SkipChunkedExtent: do not materialise chunked datasets whose declared extent is far larger than the file
+// (known finding C07-chunked-extent-alloc: the result buffer is sized by the dataspace, not by what is stored).
+// The datasets are still reported in Notes, so the caller counts them.
+var c07SkipChunkedExtent bool
+
+// c07ChunkedExtent reports the declared size in bytes of a chunked dataset (0 if the dataset is not chunked or its
+// messages do not parse); overflow is reported as MaxUint64.
+func c07ChunkedExtent(hdr *core.ObjectHeader, sb *core.Superblock) uint64 {
+	var dt *core.DatatypeMessage
+	var ds *core.DataspaceMessage
+	var ly *core.DataLayoutMessage
+	for _, m := range hdr.Messages {
+		switch m.Type {
+		case core.MsgDatatype:
+			if x, err := core.ParseDatatypeMessage(m.Data); err == nil {
+				dt = x
+			}
+		case core.MsgDataspace:
+			if x, err := core.ParseDataspaceMessage(m.Data); err == nil {
+				ds = x
+			}
+		case core.MsgDataLayout:
+			if x, err := core.ParseDataLayoutMessage(m.Data, sb); err == nil {
+				ly = x
+			}
+		}
+	}
+	if dt == nil || ds == nil || ly == nil || !ly.IsChunked() {
+		return 0
+	}
+	total := uint64(1)
+	for _, d := range ds.Dimensions {
+		if d != 0 && total > ^uint64(0)/d {
+			return ^uint64(0)
+		}
+		total *= d
+	}
+	if ds.Type == core.DataspaceNull {
+		total = 0
+	}
+	es := uint64(dt.Size)
+	if es != 0 && total > ^uint64(0)/es {
+		return ^uint64(0)
+	}
+	return total * es
+}
+
 func c07ReadDataset(res *c07Res, f *hdf5.File, path string, d *hdf5.Dataset) {
 	c07Guard(res, "Dataset.Info", func() error { _, err := d.Info(); return err })
 	c07ReadAttrs(res, "Dataset", d.Attributes)
 	c07Guard(res, "Dataset.ListAttributes", func() error { _, err := d.ListAttributes(); return err })
 	c07Guard(res, "Dataset.ReadAttribute", func() error { _, _ = d.ReadAttribute("units"); return nil })
-	c07Guard(res, "Dataset.Read", func() error { _, err := d.Read(); return err })
-	c07Guard(res, "Dataset.ReadStrings", func() error { _, err := d.ReadStrings(); return err })
-	c07Guard(res, "Dataset.ReadCompound", func() error { _, err := d.ReadCompound(); return err })
 	// the extent as the reader itself parses it (needed to form an in-range selection)
 	var dims []uint64
+	sparse := false
 	c07Guard(res, "dims", func() error {
 		hdr, err := core.ReadObjectHeader(f.Reader(), d.Address(), f.Superblock())
 		if err != nil {
 			return err
+		}
+		if ext := c07ChunkedExtent(hdr, f.Superblock()); ext > 4<<20+4*uint64(res.Size) {
+			sparse = true
+			if len(res.Notes) < 16 {
+				res.Notes = append(res.Notes, fmt.Sprintf("chunked-extent:%d", ext))
+			}
 		}
 		for _, m := range hdr.Messages {
 			if m.Type == core.MsgDataspace {
@@ -238,14 +289,24 @@ func c07ReadDataset(res *c07Res, f *hdf5.File, path string, d *hdf5.Dataset) {
 		}
 		return nil
 	})
+	if !(sparse && c07SkipChunkedExtent) {
+		c07Guard(res, "Dataset.Read", func() error { _, err := d.Read(); return err })
+		c07Guard(res, "Dataset.ReadStrings", func() error { _, err := d.ReadStrings(); return err })
+		c07Guard(res, "Dataset.ReadCompound", func() error { _, err := d.ReadCompound(); return err })
+	}
 	if len(dims) > 0 && len(dims) <= 64 {
 		start := make([]uint64, len(dims))
 		count := make([]uint64, len(dims))
 		last := make([]uint64, len(dims))
+		wide := 0 // at most three dimensions get more than one element: the slab stays small whatever the rank
 		for i, n := range dims {
 			count[i] = n
-			if n > 2 {
-				count[i] = 2
+			if n > 1 {
+				count[i] = 1
+				if wide < 3 {
+					count[i] = 2
+					wide++
+				}
 			}
 			last[i] = n - count[i]
 		}
@@ -255,10 +316,12 @@ func c07ReadDataset(res *c07Res, f *hdf5.File, path string, d *hdf5.Dataset) {
 			stride := make([]uint64, len(dims))
 			block := make([]uint64, len(dims))
 			cnt := make([]uint64, len(dims))
+			w := 0
 			for i := range dims {
 				stride[i], block[i], cnt[i] = 2, 1, 1
-				if dims[i] >= 3 {
+				if dims[i] >= 3 && w < 3 {
 					cnt[i] = 2
+					w++
 				}
 			}
 			_, err := d.ReadHyperslab(&hdf5.HyperslabSelection{Start: start, Count: cnt, Stride: stride, Block: block})
@@ -271,7 +334,7 @@ func c07ReadDataset(res *c07Res, f *hdf5.File, path string, d *hdf5.Dataset) {
 			return err
 		}
 		n := 0
-		for it.Next() && n < c07MaxChunks {
+		for !(sparse && c07SkipChunkedExtent) && it.Next() && n < c07MaxChunks {
 			n++
 			c07CurOp.Store("ChunkIterator.Chunk")
 			if _, err := it.Chunk(); err != nil {
@@ -374,6 +437,11 @@ func init() {
 		if err != nil {
 			return err
 		}
+		for _, a := range args[2:] {
+			if a == "skip=chunked-extent" {
+				c07SkipChunkedExtent = true
+			}
+		}
 		if err := os.MkdirAll(dir, 0o700); err != nil {
 			return err
 		}
@@ -422,7 +490,7 @@ func init() {
 				emit(map[string]interface{}{"id": c.ID, "harness_error": err.Error()})
 				continue
 			}
-			if c07RSS() > 48*1024 {
+			if c07RSS() > 20*1024 {
 				debug.FreeOSMemory()
 			}
 			if canReset {
